@@ -11,7 +11,9 @@
 #include "verif_rt.h"
 
 #define MAXI 8192
-typedef struct { int id, kind, phase; uint64_t call_seq, ret_seq, start_seq, end_seq; _Atomic int runs; int on_main; int result; int payload; } item_t;
+typedef struct { int id, kind, phase, qi; uint64_t call_seq, ret_seq, start_seq, end_seq; _Atomic int runs; int on_main; int result; int payload; } item_t;
+/* qi: 0 the main queue itself, 1 a serial lane targeting it, 2 a concurrent lane targeting it (C03 with a thread-bound bottom) */
+static dispatch_queue_t g_lane[3];
 static item_t g_items[MAXI];
 static _Atomic int g_nitems, g_fail, g_phase, g_clients_done;
 static int NT = 3, g_ops = 60;
@@ -37,7 +39,8 @@ static void submit(int kind)
 	if (id >= MAXI) return;
 	item_t *it = &g_items[id];
 	it->id = id; it->kind = kind; it->phase = atomic_load(&g_phase); it->payload = id * 3 + 1;
-	dispatch_queue_t q = dispatch_get_main_queue();
+	it->qi = (int)(vrt_rand() % 10 < 6 ? 0 : 1 + vrt_rand() % 2);
+	dispatch_queue_t q = g_lane[it->qi];
 	it->call_seq = vrt_api("Call", 0, id, kind, 0);
 	switch (kind) {
 	case 0: dispatch_async_f(q, it, item_fn); break;
@@ -78,8 +81,10 @@ static void check(int from, int to, int phase)
 		for (int j = from; j < to; j++) {
 			item_t *b = &g_items[j];
 			if (i == j || atomic_load(&b->runs) != 1) continue;
-			if (i < j && a->start_seq < b->end_seq && b->start_seq < a->end_seq) oracle_fail("C02", "main-queue items overlapped", i, j);
-			if (a->ret_seq < b->call_seq && !(a->end_seq < b->start_seq)) oracle_fail("C02", "main queue: submission order not respected", i, j);
+			/* everything in the hierarchy is serialised by the main queue at its bottom */
+			if (i < j && a->start_seq < b->end_seq && b->start_seq < a->end_seq) oracle_fail(a->qi == b->qi && a->qi == 0 ? "C02" : "C03", "items of the main-queue hierarchy overlapped", i, j);
+			/* submission order: within the main queue and within the serial lane; a barrier-less concurrent lane keeps no order */
+			if (a->qi == b->qi && a->qi != 2 && a->ret_seq < b->call_seq && !(a->end_seq < b->start_seq)) oracle_fail(a->qi == 0 ? "C02" : "C03", "main-queue hierarchy: submission order not respected", i, j);
 		}
 	}
 	(void)n;
@@ -90,7 +95,12 @@ static void *finisher(void *a)
 	/* phase 2 runs after dispatch_main(): the main queue is now an ordinary serial queue */
 	while (atomic_load(&g_clients_done) < 2 * NT) usleep(200);
 	int n2 = atomic_load(&g_nitems);
-	dispatch_sync_f(dispatch_get_main_queue(), NULL, (dispatch_function_t)vrt_progress);
+	/* flush: every client call has returned; what is still queued sits in the two lanes or in the main queue */
+	for (int k = 0; k < 2; k++) {
+		dispatch_barrier_sync_f(g_lane[1], NULL, (dispatch_function_t)vrt_progress);
+		dispatch_barrier_sync_f(g_lane[2], NULL, (dispatch_function_t)vrt_progress);
+		dispatch_sync_f(dispatch_get_main_queue(), NULL, (dispatch_function_t)vrt_progress);
+	}
 	n2 = atomic_load(&g_nitems);
 	check(0, n2, 0);
 	if (g_chain != n2) oracle_fail("C02", "main-queue items raced on a plain counter", g_chain, n2);
@@ -112,6 +122,11 @@ int main(int argc, char **argv)
 	vrt_set_hang_seconds(30);
 	(void)vrt_tid();
 	vrt_register(&_dispatch_main_q, sizeof(_dispatch_main_q), 1);   /* perturbation points on the main queue's words */
+	g_lane[0] = dispatch_get_main_queue();
+	g_lane[1] = dispatch_queue_create_with_target("verif.main.serial", DISPATCH_QUEUE_SERIAL, dispatch_get_main_queue());
+	g_lane[2] = dispatch_queue_create_with_target("verif.main.conc", DISPATCH_QUEUE_CONCURRENT, dispatch_get_main_queue());
+	vrt_register(g_lane[1], sizeof(struct dispatch_lane_s), 1);
+	vrt_register(g_lane[2], sizeof(struct dispatch_lane_s), 1);
 	pthread_t th[8], fin;
 	for (long i = 0; i < NT; i++) pthread_create(&th[i], NULL, client, NULL);
 	atomic_store(&g_phase, 1);
